@@ -199,17 +199,25 @@ fn c17_glue_empty_frame() {
 }
 
 //@ props: C17 C02~ C01~
+//@ tier: thorough
 //@ peer: yes
-//@ timeout: 2400
+//@ timeout: 7200
 //@ fns: server::task::SessionTask::handle_frame (broadcast arm), server::request::Request::into_broadcast_request, BroadcastRequest::execute, server::handler::ServerHandlerMap::iter_mut
-//@ bounds: RTU, write single register to address 0 (broadcast), map of two units (17 and 42) with independent symbolic handlers, every index/value and handler result
+//@ bounds: RTU, write single register to address 0 (broadcast), map of two units (17 and 42), every index/value, every combination of per-unit handler results (accept / any exception); point tables concrete (not read by the write path)
 /// a broadcast write is applied exactly once to EVERY configured unit and is never answered - not even when a
 /// handler raises an exception
 #[kani::proof]
 #[kani::unwind(14)]
 fn c17_glue_broadcast_write() {
-    let h1: Shared = VH::new(Tables::any(), 0).wrap();
-    let h2: Shared = VH::new(Tables::any(), 0).wrap();
+    // the write path reads nothing of the point tables: they are concrete here. What stays symbolic per unit is the
+    // handler's RESULT, so "the first unit rejects, the second must still be written" is inside the space.
+    let quiet = Tables { coil_bits: 0, di_bits: 0, hregs: [0; 4], iregs: [0; 4], ex_addr: None, ex_code: ExceptionCode::Acknowledge, write_result: Ok(()) };
+    let mut t1 = quiet;
+    let mut t2 = quiet;
+    t1.write_result = if kani::any() { Ok(()) } else { Err(any_exception()) };
+    t2.write_result = if kani::any() { Ok(()) } else { Err(any_exception()) };
+    let h1: Shared = VH::new(t1, 0).wrap();
+    let h2: Shared = VH::new(t2, 0).wrap();
     let mut map = ServerHandlerMap::single(UnitId::new(UNIT), h1.clone());
     map.add(UnitId::new(42), h2.clone());
     let (mut s, ctx) = session(map, AuthorizationType::None, true, DecodeLevel::nothing());
@@ -222,7 +230,8 @@ fn c17_glue_broadcast_write() {
     assert!(c1 == 1 && w1 == 1 && k1 == 2 && c2 == 1 && w2 == 1 && k2 == 2, "[C17] a broadcast write is applied exactly once to every configured unit");
     assert!(s1 == be16(b[0], b[1]) && v1 == be16(b[2], b[3]) && s2 == s1 && v2 == v1, "[C02] with exactly the address and value sent");
     assert!(io.verif().writes == 0 && io.verif().out_len == 0, "[C17] a broadcast is never answered, not even with an exception");
-    kani::cover!(true, "reached");
+    kani::cover!(t1.write_result.is_err() && t2.write_result.is_ok(), "first unit rejects, second accepts");
+    kani::cover!(t1.write_result.is_ok() && t2.write_result.is_ok(), "both accept");
     std::mem::forget((io, s, ctx, h1, h2));
 }
 
